@@ -321,7 +321,7 @@ def run_js(res, spec):
                     cases.append({'table': t, 'delim': dlm, 'policy': policy, 'line_separator': ls, 'encoding': enc, 'also_stream': True})
         if spec['i'] % 3 == 0:
             # long narrow tables: thousands of short records per stream chunk (the reader's record queue grows in bursts)
-            for nrec, policy, dlm in ((5000, 'simple', ','), (9000, 'quoted_rfc', ';'), (6000, 'monocolumn', ''), (4097, 'quoted', '::'), (4500, 'simple', '\t')):
+            for nrec, policy, dlm in ((5000, 'simple', ','), (9000, 'quoted_rfc', ';'), (6000, 'monocolumn', ''), (4097, 'quoted', '::'), (4500, 'simple', '\t')) + (((140000, 'simple', ','),) if spec['i'] == 0 else ()):      # the last one: more records in ONE block (bulk read, one-chunk stream) than a call can take arguments
                 t = [[str(i)] + ([] if policy == 'monocolumn' else ['v' if i % 100 else 'q"%d' % i]) for i in range(nrec)]
                 if policy == 'simple':
                     t = [[r[0], 'v'] for r in t]
